@@ -94,6 +94,35 @@ def check(run, model, tier):
             raise AnalysisError('trace writer: the timestamp field %s is not a recognised way of rendering the record\'s datetime' % norm(a0))
     else:
         raise AnalysisError('trace writer: expected one strftime call, found %d' % len(st_calls))
+    # ---- one record, one line: stripped() removes the timestamp at the start of each *line*; a record handed to a sink (trace(), a live-trace callback that collects
+    # into one log) without its line break is glued to the next record, whose timestamp then sits in the middle of a line and survives stripping
+    run.rule('WRITER.line-per-record', 'every place that renders a trace record ends it with a line break: in the layout itself, or at each call site of the formatter')
+    if not layout.endswith('\n'):
+        bare = []
+        for f_ in model.all_funcs():
+            par_ = None
+            for c_ in shallow_calls(f_.node):
+                if isinstance(c_.func, ast.Attribute) and c_.func.attr == writer.name:
+                    if par_ is None:
+                        from sa.util import parents as _parents
+                        par_ = _parents(f_.node)
+                    up = par_.get(c_)
+                    ok_ = isinstance(up, ast.BinOp) and isinstance(up.op, ast.Add) and any((const_str(x_) or '').endswith('\n') for x_ in (up.left, up.right))
+                    if not ok_ and isinstance(up, ast.AugAssign) and isinstance(up.op, ast.Add) and isinstance(up.target, ast.Name):
+                        # `s = "\n"` ... `s += formatter(record)`: the record starts on a line of its own
+                        ds_ = [d_ for d_ in local_defs(f_.node).get(up.target.id, []) if isinstance(d_, ast.AST)]
+                        ok_ = any(isinstance(d_, ast.Constant) and isinstance(d_.value, str) and d_.value.endswith('\n') for d_ in ds_)
+                    if not ok_:
+                        bare.append((f_, c_))
+        for f_, c_ in bare:
+            run.inst('WRITER.line-per-record', f_, 'the rendered record is terminated: ' + norm(c_)[:60], False,
+                     'the trace layout %r has no line break and %s hands the rendered record on as it is (%s): in a log that collects several records - two charts sharing one live-trace '
+                     'callback, a chart started twice - that record is glued to its neighbour, the second timestamp is no longer at the start of a line, and two logs that differ only '
+                     'in timestamps no longer strip to equal lists' % (layout, f_.qualname, norm(c_)[:60]), node=c_, obligation=True)
+        if not bare:
+            run.inst('WRITER.line-per-record', writer, 'every call site of the formatter appends the line break', True, obligation=True)
+    else:
+        run.inst('WRITER.line-per-record', writer, 'the layout ends with a line break', True, obligation=True)
     # ---- reader regex: every regular expression applied by stripped() (in its body or in a helper nested in it)
     uses = []          # (function that contains the use, how, pattern, call, subject args)
     # ... or in a module-level function it calls (followed transitively; a decorator on such a function does not hide its body)
